@@ -33,10 +33,11 @@ import (
 )
 
 func maintPassCount(tier string) int {
+	// (the last four of them are the nobody-to-ask cases, runMaintEmptyCase)
 	if tier == "thorough" {
-		return 60
+		return 64
 	}
-	return 12
+	return 16
 }
 
 type mpNode struct {
@@ -626,5 +627,67 @@ func runMaintPassCase(seed uint64, k, idx int) {
 	emit("# mpass %d depth=%d nodes=%d datagrams=%d ended=%v", idx, depth, len(nodes), len(log2), ended)
 	s.Close()
 	conn.Close()
+	emit("mend %d => ok", idx)
+}
+
+// runMaintEmptyCase: TableMaintainer on a node that cannot find anybody (empty table; the starting-node resolver fails,
+// returns nothing, or names an address that never answers), closed a moment later: the maintainer must return and
+// leave nothing behind (C14), the API must go on returning (C01).
+func runMaintEmptyCase(seed uint64, k, idx int) {
+	emit("mbegin %d maint strategy=pass-empty => ok", idx)
+	out.Flush()
+	kind := []string{"resolver-error", "resolver-empty", "resolver-nil", "silent-starting-node"}[k%4]
+	conn := newFakeConn()
+	cfg := &dht.ServerConfig{
+		Conn:             conn,
+		NoSecurity:       true,
+		QueryResendDelay: func() time.Duration { return 12 * time.Millisecond },
+		Logger:           log.NewLogger().FilterLevel(log.Critical),
+		SendLimiter:      rate.NewLimiter(rate.Inf, 1),
+	}
+	cfg.NodeId[0], cfg.NodeId[19] = 0x51, byte(k)
+	switch kind {
+	case "resolver-error":
+		cfg.StartingNodes = func() ([]dht.Addr, error) { return nil, fmt.Errorf("no such host") }
+	case "resolver-empty":
+		cfg.StartingNodes = func() ([]dht.Addr, error) { return nil, nil }
+	case "silent-starting-node":
+		cfg.StartingNodes = func() ([]dht.Addr, error) {
+			return []dht.Addr{dht.NewAddr(udp([]byte{10, 3, 3, 3}, 6881))}, nil
+		}
+	}
+	s, err := dht.NewServer(cfg)
+	if err != nil {
+		panic(err)
+	}
+	mdone := make(chan struct{})
+	go func() { s.TableMaintainer(); close(mdone) }()
+	time.Sleep(time.Duration(20+60*(k%3)) * time.Millisecond)
+	s.Close()
+	select {
+	case <-mdone:
+	case <-time.After(15 * time.Second):
+		oracle("C14", "maintainer-does-not-return-after-close:nobody-to-ask:"+kind, "case=%d k=%d", idx, k)
+	}
+	api := make(chan struct{})
+	go func() { s.Stats(); s.NumNodes(); s.Nodes(); close(api) }()
+	select {
+	case <-api:
+	case <-time.After(5 * time.Second):
+		oracle("C01", "api-does-not-return:maint-close-nobody-to-ask", "case=%d k=%d kind=%s", idx, k, kind)
+	}
+	left := 0
+	for dl := time.Now().Add(4 * time.Second); ; {
+		left = goroutinesInside("github.com/anacrolix/dht/v2/traversal.")
+		if left == 0 || time.Now().After(dl) {
+			break
+		}
+		time.Sleep(5 * time.Millisecond)
+	}
+	if left > 0 {
+		oracle("C14", "maintainer-left-traversal-running", "case=%d k=%d kind=%s: %d goroutines inside the traversal package 4 s after Close", idx, k, kind, left)
+	}
+	conn.Close()
+	emit("# mpass %d nobody-to-ask kind=%s", idx, kind)
 	emit("mend %d => ok", idx)
 }
